@@ -56,7 +56,8 @@ PROPS = {
                                       oracles=["mismatch_panics", "drop_once", "fail_preserves", "other_slots_untouched", "insert_replaces",
                                                "remove_empties", "entry_never_overwrites", "entry_inserts", "presence_agrees", "get_mut_identity"])}),
     "C10": dict(suites={"plan": dict(fields=LAYOUT + ["maxthr"], oracles=["skip_justified", "max_threads"])}),
-    "C11": dict(suites={"pool": dict(fields=["pool-model", "builderr", "driver-exception"], oracles=["stage_serialised"])}),
+    "C11": dict(suites={"pool": dict(fields=["pool-model", "builderr", "driver-exception"], oracles=["stage_serialised"]),
+                        "cells": dict(fields=["pools", "driver-exception"], oracles=["batch_on_another_pool", "attached_pool_not_used", "hang"])}),
     "C12": dict(suites={"plan": dict(fields=["tl", "tlorder", "sendable", "driver-exception"], oracles=["tl_order", "sendable", "sendable_preserves_plan"]),
                         "exec": dict(fields=XLAYOUT, oracles=["tl_on_caller", "inner_tl_on_caller", "tl_last"], kf1=True),
                         "async": dict(fields=["async_accept", "builderr", "level-plan", "driver-exception"],
